@@ -14,15 +14,17 @@ import (
 // segment and a Read returns bytes from at most one segment, so the test controls segmentation.
 
 type halfPipe struct {
-	mu       sync.Mutex
-	cond     *sync.Cond
-	segs     [][]byte
-	closed   bool // writer side closed: reader gets EOF after draining
-	rdClosed bool // reader side closed: writes fail
-	capBytes int  // > 0: a Write waits while this many bytes are buffered unread (a full socket buffer)
-	buffered int
-	deadline time.Time
-	timer    *time.Timer
+	mu        sync.Mutex
+	cond      *sync.Cond
+	segs      [][]byte
+	closed    bool // writer side closed: reader gets EOF after draining
+	rdClosed  bool // reader side closed: writes fail
+	capBytes  int  // > 0: a Write waits while this many bytes are buffered unread (a full socket buffer)
+	buffered  int
+	deadline  time.Time
+	timer     *time.Timer
+	wdeadline time.Time // write deadline of the side that writes into this half
+	wtimer    *time.Timer
 }
 
 func newHalf() *halfPipe {
@@ -95,6 +97,9 @@ func (c *bufConn) Write(b []byte) (int, error) {
 	for {
 		// a full buffer takes what fits and makes the writer wait with the rest, as a socket does
 		for h.capBytes > 0 && h.buffered >= h.capBytes && !h.closed && !h.rdClosed {
+			if !h.wdeadline.IsZero() && !time.Now().Before(h.wdeadline) {
+				return written, timeoutErr{}
+			}
 			h.cond.Wait()
 		}
 		if h.closed || h.rdClosed {
@@ -161,8 +166,34 @@ func (c *bufConn) SetReadDeadline(t time.Time) error {
 	return nil
 }
 
-func (c *bufConn) SetWriteDeadline(time.Time) error { return nil }
-func (c *bufConn) SetDeadline(t time.Time) error    { return c.SetReadDeadline(t) }
+func (c *bufConn) SetWriteDeadline(t time.Time) error {
+	h := c.wr
+	h.mu.Lock()
+	defer h.mu.Unlock()
+	h.wdeadline = t
+	if h.wtimer != nil {
+		h.wtimer.Stop()
+		h.wtimer = nil
+	}
+	if !t.IsZero() {
+		d := time.Until(t)
+		if d < 0 {
+			d = 0
+		}
+		h.wtimer = time.AfterFunc(d, func() {
+			h.mu.Lock()
+			h.cond.Broadcast()
+			h.mu.Unlock()
+		})
+	}
+	h.cond.Broadcast()
+	return nil
+}
+
+func (c *bufConn) SetDeadline(t time.Time) error {
+	_ = c.SetWriteDeadline(t)
+	return c.SetReadDeadline(t)
+}
 
 type bufAddr struct{}
 
